@@ -265,6 +265,14 @@ class Program:
         self.adts = {a["id"]: a for a in raw["adts"]}
         self.adt_by_path = {a["path"]: a for a in raw["adts"]}
         self.consts = {c["path"]: c for c in raw["consts"]}
+        # initialiser bodies of small local array constants (not functions: kept out of `bodies`)
+        self.const_bodies = {}
+        for c in raw["consts"]:
+            if "body" in c:
+                cb = Body(self, dict(id=c["id"], path=c["path"], kind="Const", vis="n/a", span=c["span"],
+                                     body=c["body"], promoted=c.get("promoted", [])))
+                self.const_bodies[cb.short] = cb
+                self.const_bodies[c["id"]] = cb
 
     def const_int(self, path_suffix):
         for p, c in self.consts.items():
